@@ -276,7 +276,8 @@ def handle (st : DState) (j : Json) : Except String (DState × Json) := do
     | .error _ => pure (st, Json.mkObj [("error", true)])
   | "accepts" =>
     let ty ← getTy st j
-    pure (st, Json.mkObj [("front", Accept.front ty), ("pyrt", Accept.pyRt ty), ("wf", WF.wfTy ty)])
+    pure (st, Json.mkObj [("front", Accept.front ty), ("pyrt", Accept.pyRt ty), ("wf", WF.wfTy ty), ("model", Accept.model ty),
+      ("grammar", Accept.grammar ty)])
   | "py_copy" =>
     let ty ← getTy st j
     let v ← valOfJson (← j.getObjVal? "v")
